@@ -19,13 +19,19 @@ macro_rules! cfb_fronts {
             // one-shot
             let mut a = msg;
             do_oneshot!($dir, cfb_mode::$ty::inner_iv_init(c.clone(), blk::<$bs>(&iv)), &mut a[..]);
-            // buffered, in two calls (3 bytes, rest)
+            // buffered, in several calls: empty, one whole block, empty (on a block boundary), 1 byte, rest
             let mut b = msg;
             let mut bm = cfb_mode::$buf::inner_iv_init(c.clone(), blk::<$bs>(&iv));
             {
-                let (p1, p2) = b.split_at_mut(3);
+                let (p0, r) = b.split_at_mut(0);
+                let (p1, r) = r.split_at_mut(B);
+                let (pe, r) = r.split_at_mut(0);
+                let (p2, p3) = r.split_at_mut(1);
+                bm.$call(p0);
                 bm.$call(p1);
+                bm.$call(pe);
                 bm.$call(p2);
+                bm.$call(p3);
             }
             // block level on the whole blocks
             let mut d = msg;
